@@ -32,8 +32,12 @@ std::vector<GeodeticCoordinates> anchors() {
   return v;
 }
 
+// a converter on another ellipsoid (International 1924) that converts the bit-identical geodetic point right before the ENU converter uses it
+void prime_other_ellipsoid(const GeodeticCoordinates& g) { static const ECEFConverter hayford(EarthEllipsoid(6378388.0, 6356911.946)); Eigen::Vector3d p = hayford.toECEF(g); (void)hayford.toWGS84(p); }
+
 void lattice(vf::Ctx& c, size_t ia) {
   GeodeticCoordinates A = anchors()[ia];
+  prime_other_ellipsoid(A);
   ENUConverter conv(A);
   ENUConverter other(anchors()[(ia * 7 + 3) % anchors().size()]);   // a second converter, anchored elsewhere, used between the calls below
   std::string ap = vf::JO().num("anchor_lat", A.latitude).num("anchor_lon", A.longitude).num("anchor_h", A.altitude).done();
@@ -47,6 +51,7 @@ void lattice(vf::Ctx& c, size_t ia) {
     c.violation("ENUConverter.frame", ap, vf::JO().num("frame_err", (R - f.R).norm()).num("det", R.determinant()).num("translation_err_m", (T.translation().cast<long double>() - f.t).norm()).done());
   // anchor -> origin ; h metres above -> (0,0,h)
   for (double dh : {0.0, 1.0, 250.0, -300.0, 10000.0}) {
+    prime_other_ellipsoid(makeGeodeticCoordinates(A.latitude, A.longitude, A.altitude + dh));
     Eigen::Vector3d p = conv.toENU(makeGeodeticCoordinates(A.latitude, A.longitude, A.altitude + dh));
     c.eval(); c.nontrivial();
     if ((p - Eigen::Vector3d(0, 0, dh)).norm() > 1e-6) c.violation("ENUConverter.toENU.aboveAnchor", ap, vf::JO().num("dh", dh).vec("got", std::vector<double>{p[0], p[1], p[2]}).done());
@@ -123,6 +128,7 @@ void sequences(vf::Ctx& c, int depth, int init, int firstOp) {
       auto params = [&]() { std::vector<std::string> h; h.push_back(init ? "ENUConverter(A" + std::to_string(init - 1) + ")" : "ENUConverter()"); for (int j = 0; j <= i; ++j) h.push_back(opname(seq[j])); return vf::JO().strs("history", h).done(); };
       bool ok = true;
       Eigen::Vector3d out(0, 0, 0); bool hasOut = false; L3 want(0, 0, 0);
+      if (op < 3) prime_other_ellipsoid(al.A[op]); else if (op >= 4 && op < 7) prime_other_ellipsoid(al.G[op - 4]);
       if (op == 20) { if (!m.anchored) break; conv.setAnchor(conv.getAnchor()); }   // the argument aliases the converter's own state; the anchor must not change
       else if (op == 18) { *other = *cur; std::swap(cur, other); }
       else if (op == 19) { std::unique_ptr<ENUConverter> cp(new ENUConverter(*cur)); other = std::move(cur); cur = std::move(cp); }
